@@ -16,7 +16,7 @@ PLANS = {
 def export(run, n, maxpre, k):
     cfg = f"SPECIFICATION Spec\nCONSTANTS N = {n} MaxPre = {min(maxpre, n)}\nCHECK_DEADLOCK FALSE\nCONSTRAINT Emit\nINVARIANT NoClobberSafe\n" \
           "INVARIANT ClobberRewrites\nINVARIANT FreshRunSucceeds\nPROPERTY Terminates\n"
-    r = C.tlc_ok(C.tlc("Clobber", cfg, run.dir, name=f"MC_Clobber_{k}", workers=1, timeout=1200), "Clobber model check / export")
+    r = C.tlc_ok(C.tlc("ClobberScen", cfg, run.dir, name=f"MC_Clobber_{k}", workers=1, timeout=1200), "Clobber model check / export")
     objs = [o for o in C.emitted(r["out"]) if isinstance(o, dict)]
     seen = set()
     uniq = []
@@ -59,6 +59,8 @@ def main(tier, replay=None):
     nv = C.report(run, "C16", jr["V"], {t["tid"]: t for t in traces})
     for m in jr["M"][:5]:
         print(f"MODEL-DRIFT action={m[2]} trace={m[1]} detail={m[3]}")
+    proof = C.tlaps(run, "ClobberProof", deps=("Clobber",))
+    proof["theorem"] = "Spec => []NoClobberSafe for every number N of output files (inductive invariant Inv)"
     exits = {}
     for t in traces:
         key = ("clobber" if t["clobber"] else "no-clobber") + f"/exit{t['exit']}"
@@ -71,7 +73,7 @@ def main(tier, replay=None):
                 "taken from a reference run into an empty directory; TLC (Clobber.tla) enumerates the subsets of pre-existing outputs "
                 + ("(all 2^n)" if plan["maxpre"] >= 99 else f"(size <= {plan['maxpre']} and the full set)") + " x clobber on/off; each is executed "
                 "by the real pretext-to-asm CLI in a fresh directory whose pre-existing files hold 80 kB of junk; non-trivial = non-empty subset",
-        "configurations": mcs, "runs_by_mode_and_exit": exits, "model_drift": len(jr["M"]), "model_conformant": len(jr["M"]) == 0,
+        "unbounded_proof_of_the_design": proof, "configurations": mcs, "runs_by_mode_and_exit": exits, "model_drift": len(jr["M"]), "model_conformant": len(jr["M"]) == 0,
         "samples": [traces[1], traces[len(traces) // 2]], "known_findings_seen": run.known,
     }
     C.write_evidence(run, "C16", cov, assumptions=["the CLI is run in-process through click's test runner (exit status and stderr as a sub-process would give)",
